@@ -787,4 +787,3 @@ func runSub(sub *Sub, tier string, deadline time.Time) (subStats, []any, map[str
 	st.WallS = time.Since(start).Seconds()
 	return st, smp, classes, nil
 }
-
